@@ -176,12 +176,12 @@ def ctc_family(ops, names, full):
     return out
 
 
-def ctc_tree_batch(modname, cycle_name, ops, lo, hi, full, label):
+def ctc_tree_batch(modname, cycle_name, ops, lo, hi, full, label, names=None):
     """cycle_name: function(tree) -> list of problems, defined in module modname (used for replay)."""
     import importlib
     mod = importlib.import_module(modname)
     fn = getattr(mod, cycle_name)
-    trees = ctc_family(ops, ['F0', 'F1', 'F2'], full)[lo:hi]
+    trees = ctc_family(ops, names or ['F0', 'F1', 'F2'], full)[lo:hi]
     res = {'instances': 0, 'nontrivial': 0, 'violations': [], 'native_runs': 0}
     for t in trees:
         res['instances'] += 1
